@@ -336,7 +336,7 @@ def _timer_loop_runs(ctx, j):
     it = ev.expr(loop.iter)
     ev.uid += 1
     ev._bind_target(loop.target, ("iter", it, ev.uid))
-    return [r for r in runs_of(ctx.prog, j, unroll=2, body=loop.body, evalr=ev) if not contradictory(r)]
+    return [r for r in runs_of(ctx.prog, j, unroll=2, body=loop.body, evalr=ev) if not contradictory(r) and r.term != "cut"]
 
 
 def _shape(c):
